@@ -34,6 +34,8 @@ func (db *DB) basicImport(ctx context.Context, filepath string) (err error) {
 	}()
 
 	d := json.NewDecoder(bufio.NewReader(f))
+	// Numbers must not go through float64: integers beyond 2^53 would change their value.
+	d.UseNumber()
 
 	t, err := d.Token()
 	if err != nil {
@@ -66,6 +68,10 @@ func (db *DB) basicImport(ctx context.Context, filepath string) (err error) {
 			err = d.Decode(&docMap)
 			if err != nil {
 				return NewErrJSONDecode(err)
+			}
+
+			for k, v := range docMap {
+				docMap[k] = resolveJSONNumbers(v)
 			}
 
 			// check if self referencing and remove from docMap for key creation
@@ -119,6 +125,33 @@ func (db *DB) basicImport(ctx context.Context, filepath string) (err error) {
 	}
 
 	return nil
+}
+
+// resolveJSONNumbers replaces every json.Number in a decoded JSON value by an int64 if it
+// is an integer that fits, and by a float64 otherwise.
+func resolveJSONNumbers(v any) any {
+	switch val := v.(type) {
+	case json.Number:
+		if i, err := val.Int64(); err == nil {
+			return i
+		}
+		if f, err := val.Float64(); err == nil {
+			return f
+		}
+		return val.String()
+	case []any:
+		for i := range val {
+			val[i] = resolveJSONNumbers(val[i])
+		}
+		return val
+	case map[string]any:
+		for k := range val {
+			val[k] = resolveJSONNumbers(val[k])
+		}
+		return val
+	default:
+		return v
+	}
 }
 
 func (db *DB) basicExport(ctx context.Context, config *client.BackupConfig) (err error) {
